@@ -142,7 +142,7 @@ def _run_conc(case):
 
     def make_bodies(s):
         fs = SimFS()
-        env.bf3file.open = fs.open
+        env.use_fs(fs)
         w = files.write_file(dict(case, via="stream"), fs, env, "a.bf3")
         orig = w.durable
         head, binary = files.binary_of(orig)
@@ -209,7 +209,7 @@ def run(case):
     out = Outcome()
     fs = SimFS()
     env.restore_registry()
-    env.bf3file.open = fs.open
+    env.use_fs(fs)
     kind = case["kind"]
     name = "dev.bec2" if kind == "bec2" else "fw.bf3"
     try:
@@ -254,7 +254,7 @@ def run(case):
                 if fkind == "crash":
                     # really simulate it: rerun the writer on a fresh medium, crash it
                     fs2 = SimFS()
-                    env.bf3file.open = fs2.open
+                    env.use_fs(fs2)
                     # find the write call during which byte n is written
                     recs = _records(fs, name, w)
                     acc, kcall = 0, 0
@@ -268,7 +268,7 @@ def run(case):
                     except SimCrash:
                         crashed = True
                     finally:
-                        env.bf3file.open = fs.open
+                        env.use_fs(fs)
                     dur = fs2.files.get(name, b"")
                     if crashed and dur == damaged:
                         out.probes["crash-simulated-equals-prefix"] += 1
@@ -378,14 +378,14 @@ def _older_longer_file(case, name, fs):
              "enc": False}
     oc = dict(case, obj=dict(case["obj"], components=case["obj"]["components"] + [extra]))
     fs2 = SimFS()
-    env.bf3file.open = fs2.open
+    env.use_fs(fs2)
     try:
         files.write_file(oc, fs2, env, name)
         return fs2.files[name]
     except Exception:
         return bytes(4096)
     finally:
-        env.bf3file.open = fs.open
+        env.use_fs(fs)
 
 
 def _records(fs, name, w):
